@@ -48,6 +48,13 @@ if [ $RC -eq 1 ] && ! grep -q "^VIOLATION property=" "$OUT" && grep -q "BADGER-A
   rm -f "$OUT"
   exit 1
 fi
+if [ $RC -eq 1 ] && ! grep -q "^VIOLATION property=" "$OUT" && ! grep -q "^RESULT property=" "$OUT"; then
+  # exit status 1 with neither a verdict nor a violation line: the process was ended from outside the
+  # check's own reporting (e.g. a log.Fatal that is not an assertion of badger): not a verdict
+  echo "HARNESS-FAILURE property=$ID exit=1 without a RESULT line"
+  rm -f "$OUT"
+  exit 2
+fi
 if [ $RC -ne 0 ] && [ $RC -ne 1 ]; then
   # The process died. A panic / fatal error raised inside badger code while the property's
   # workload ran on valid API usage is a violation; anything else is a harness failure.
